@@ -104,7 +104,7 @@ Section Cli.
   (** a string value: the flag/env pair when set, or when the file left it empty; else the file's *)
   Definition pick_string (f e c : option bytes) (dflt : bytes) : bytes :=
     match c with
-    | Some (_ :: _ as v) => if is_set f e then or_default (first_some [f; e]) dflt else v
+    | Some (c0 :: r) => if is_set f e then or_default (first_some [f; e]) dflt else c0 :: r
     | _ => or_default (first_some [f; e]) dflt
     end.
 
